@@ -227,6 +227,9 @@ impl Ctx {
     pub fn want_sample(&self) -> bool {
         counting() && self.samples.lock().unwrap().len() < self.max_samples
     }
+    pub fn sample_count(&self) -> usize {
+        self.samples.lock().unwrap().len()
+    }
     pub fn sample(&self, v: Value) {
         if counting() {
             let mut s = self.samples.lock().unwrap();
